@@ -21,6 +21,7 @@ PROBE = r"""
 int main (void) {
   printf("unit_sz %%lu\n", (unsigned long)sexp_heap_align(1));
   printf("hdr_sz %%lu\n", (unsigned long)sexp_heap_align(sexp_free_chunk_size));
+  printf("free_chunk_raw %%lu\n", (unsigned long)(sexp_free_chunk_size));
   printf("min_obj %%lu\n", (unsigned long)(SEXP_MINIMUM_OBJECT_SIZE));
   printf("ratio %%a\n", (double)(SEXP_GROW_HEAP_RATIO));
   printf("factor %%a\n", (double)(SEXP_GROW_HEAP_FACTOR));
@@ -79,6 +80,8 @@ def probe(d):
             vals[k] = v
     vals["shape_problems"] = shape_problems
     vals["grow_src"], vals["grow_coq"] = grow_formula(src, Fraction(float.fromhex(vals["factor"])))
+    vals["packed"], pk_problems = packed_formulas(d)
+    vals["shape_problems"] = shape_problems + pk_problems
     return vals
 
 
@@ -111,8 +114,10 @@ def _tokens(text):
 class _P:
     INT_CASTS = {("size_t",), ("sexp_uint_t",), ("unsigned", "long"), ("long",), ("sexp_sint_t",)}
 
-    def __init__(self, toks, dconsts):
+    def __init__(self, toks, dconsts, idents=("cur_size", "size"), allow_minus=False):
         self.t, self.i, self.dconsts = toks, 0, dconsts
+        self.idents = dict((x, x) for x in idents) if not isinstance(idents, dict) else idents
+        self.allow_minus = allow_minus
 
     def peek(self, k=0):
         return self.t[self.i + k] if self.i + k < len(self.t) else ("eof", "")
@@ -155,6 +160,13 @@ class _P:
             if a[0] != "int" or b[0] != "int":
                 raise FormulaError("+ on non-integers")
             a = ("int", "(%s + %s)" % (a[1], b[1]))
+        while self.peek()[1] == "-" and self.allow_minus:
+            # round 3, image heaps only: translated as the integer difference (no wrap-around below 2^63; a difference
+            # that the theorem packed_heap_make_inv cannot justify breaks the Coq build, the spec oracles find the input)
+            self.eat(); b = self.mul()
+            if a[0] != "int" or b[0] != "int":
+                raise FormulaError("- on non-integers")
+            a = ("int", "(%s - %s)" % (a[1], b[1]))
         if self.peek()[1] == "-":
             raise FormulaError("subtraction (size_t wrap-around) is outside the translated subset")
         return a
@@ -202,8 +214,8 @@ class _P:
         if tk[0] == "id":
             self.eat()
             nm = tk[1]
-            if nm in ("cur_size", "size"):
-                return ("int", nm)
+            if nm in self.idents:
+                return ("int", self.idents[nm])
             if nm == "sexp_heap_align":
                 self.eat("("); e = self.ternary(); self.eat(")")
                 if e[0] != "int":
@@ -244,6 +256,56 @@ def grow_formula(src, factor):
     return ms[0].strip(), e[1]
 
 
+# ---------------------------------------------------------------------------------------------------------------
+# round 3: the heap that sexp_load_image / sexp_gc_heap_pack build by hand (gc_heap.c sexp_gc_packed_heap_make):
+# the right-hand sides of  req_size = ...;  heap->size = ...;  heap->free_list->next->size = ...;  are TRANSLATED
+# (same subset + integer difference, identifiers packed_size free_size pad req_size heap->size
+# sexp_free_chunk_size); the statements around them are compared as text.
+PACKED_SHAPES = {
+    "minimum free size (gc_heap.c sexp_gc_packed_heap_make)":
+        "if(free_size>0&&free_size<2*sexp_free_chunk_size){free_size=2*sexp_free_chunk_size;}free_size=sexp_heap_align(free_size);",
+    "segment allocation (gc_heap.c sexp_gc_packed_heap_make)":
+        "sexp_heapheap=sexp_make_heap(sexp_heap_align(req_size),0,0);",
+    "pad (gc_heap.c sexp_gc_packed_heap_make)":
+        "sexpbase=sexp_heap_first_block(heap);size_tpad=(unsignedchar*)base-(unsignedchar*)heap->data;",
+    "sentinel and chunk position (gc_heap.c sexp_gc_packed_heap_make)":
+        "heap->free_list->size=0;if(free_size==0){heap->free_list->next=NULL;}else{"
+        "heap->free_list->next=(sexp_free_list)((unsignedchar*)base+packed_size);heap->free_list->next->next=NULL;",
+    "image read at the first block (gc_heap.c sexp_load_image)":
+        "state.heap=sexp_gc_packed_heap_make(header.size,heap_free_size);",
+}
+
+
+def packed_formulas(d):
+    """(dict name -> (source text, coq text), shape problems) for sexp_gc_packed_heap_make"""
+    path = os.path.join(d, "gc_heap.c")
+    src = open(path).read()
+    m = re.search(r"static\s+sexp_heap\s+sexp_gc_packed_heap_make\s*\([^)]*\)\s*\{(.*?)\n\}", src, re.S)
+    if not m:
+        raise FormulaError("sexp_gc_packed_heap_make not found in gc_heap.c")
+    body = re.sub(r"/\*.*?\*/", "", m.group(1), flags=re.S)
+    squeezed = re.sub(r"\s+", "", re.sub(r"/\*.*?\*/", "", src, flags=re.S))
+    problems = [what for what, shape in PACKED_SHAPES.items() if shape not in squeezed]
+    idents = {"packed_size": "packed_size", "free_size": "free_size", "pad": "pad", "req_size": "req_size",
+              "heap_size": "heap_size", "sexp_free_chunk_size": "free_chunk_raw"}
+    out = {}
+    for name, pat in (("pk_req", r"\breq_size\s*=\s*([^;]*);"), ("pk_hsize", r"\bheap->size\s*=\s*([^;]*);"),
+                      ("pk_chunk", r"\bheap->free_list->next->size\s*=\s*([^;]*);")):
+        ms = re.findall(pat, body)
+        if len(ms) != 1:
+            raise FormulaError("sexp_gc_packed_heap_make assigns %s %d times" % (name, len(ms)))
+        text = ms[0].replace("heap->size", "heap_size")
+        if "->" in text:
+            raise FormulaError("%s: %r is outside the translated subset" % (name, ms[0]))
+        p = _P(_tokens(text), {}, idents=idents, allow_minus=True)
+        p.dconsts_names = {}
+        e = p.ternary()
+        if p.peek()[0] != "eof" or e[0] != "int":
+            raise FormulaError("%s: %r is not an integer expression of the translated subset" % (name, ms[0]))
+        out[name] = (ms[0].strip(), e[1])
+    return out, problems
+
+
 def coq_text(vals):
     ratio = Fraction(float.fromhex(vals["ratio"]))
     factor = Fraction(float.fromhex(vals["factor"]))
@@ -273,6 +335,13 @@ def coq_text(vals):
             "(* ceil(n/d) for the double product inside ceil() *)\nDefinition cdiv (n d : Z) : Z := (n + d - 1) / d.\n"
             "(* sexp_grow_heap, gc.c, TRANSLATED from:  new_size = " + vals["grow_src"].replace("*)", "* )") + ";  *)\n"
             "Definition grow_formula (cur_size size : Z) : Z :=\n  " + vals["grow_coq"] + ".\n")
+    pk = vals["packed"]
+    tail += ("(* sexp_free_chunk_size = sizeof(struct sexp_free_list_t) *)\nDefinition free_chunk_raw : Z := %d.\n" % int(vals["free_chunk_raw"]))
+    tail += ("(* gc_heap.c sexp_gc_packed_heap_make, TRANSLATED from:  req_size = %s;  heap->size = %s;  heap->free_list->next->size = %s;  *)\n"
+             % tuple(pk[k][0].replace("*)", "* )") for k in ("pk_req", "pk_hsize", "pk_chunk")))
+    tail += "Definition pk_req (packed_size free_size : Z) : Z :=\n  %s.\n" % pk["pk_req"][1]
+    tail += "Definition pk_hsize (packed_size free_size pad req_size : Z) : Z :=\n  %s.\n" % pk["pk_hsize"][1]
+    tail += "Definition pk_chunk (packed_size free_size pad req_size heap_size : Z) : Z :=\n  %s.\n" % pk["pk_chunk"][1]
     return head + tail
 
 
